@@ -1,8 +1,9 @@
 #!/bin/sh
 # run every claimed check (quick tier by default) on the current /repo tree; summary lines only
-cd /verif
+cd "$(dirname "$0")/.." || exit 2
 TIER=${1:-quick}
 for id in $(python3 -c "import json;print(' '.join(c['property_id'] for c in json.load(open('MANIFEST.json'))['checks']))"); do
-  bin/check $id --tier $TIER > /tmp/run_all_$id.log 2>&1; rc=$?
-  echo "$id rc=$rc $(tail -1 /tmp/run_all_$id.log)"
+  start=$(date +%s)
+  bin/check $id --tier $TIER > /tmp/run_all_${TIER}_$id.log 2>&1; rc=$?
+  echo "$id rc=$rc $(( $(date +%s) - start ))s $(tail -1 /tmp/run_all_${TIER}_$id.log)"
 done
